@@ -41,9 +41,149 @@ def _cls(name):
     return o, comps
 
 
+CONTAINERS = {
+    'particles': ('pySDC.implementations.datatype_classes.particles', 'particles', ['pos', 'vel']),
+    'fields': ('pySDC.implementations.datatype_classes.particles', 'fields', ['elec', 'magn']),
+}
+
+
+def generate_container(r):
+    cname = r.choice(['particles', 'particles', 'fields'])
+    shape = r.choice([[3, 1], [3, 2], [3, 4]])
+    ops = [['new', i, r.randrange(1 << 20)] for i in range(NV)]
+    for _ in range(r.randint(3, 12)):
+        c = r.random()
+        a, b, d = r.randrange(NV), r.randrange(NV), r.randrange(NV)
+        scal = r.choice([2.0, -0.5, 3.0, 0.25])
+        if c < 0.25:
+            ops.append(['aug', a, r.choice(['add', 'sub']), b])
+        elif c < 0.45:
+            ops.append(['bin', d, r.choice(['add', 'sub']), a, b])
+        elif c < 0.55:
+            ops.append(['rmul', d, scal, a])
+        elif c < 0.65:
+            ops.append(['alias', d, a])
+        elif c < 0.75:
+            ops.append(['copy', d, a])
+        elif c < 0.9:
+            ops.append(['compset', a, r.randrange(2), ['v', b] if r.random() < 0.6 else ['s', scal]])
+        else:
+            ops.append(['abs', a])
+    ops.append(['abs', r.randrange(NV)])
+    return {'engine': 'dtypesim', 'kind': 'container_history', 'cls': cname, 'shape': shape, 'dtype': 'float64', 'ops': ops}
+
+
+def execute_container(sc):
+    import importlib
+
+    res, log = Result(), EventLog()
+    V = lambda clause, site, detail, **ident: res.violate('C13', clause, site, detail, ident=dict(cls=sc['cls'], **ident))  # noqa: E731
+    mod, attr, comps = CONTAINERS[sc['cls']]
+    cls = getattr(importlib.import_module(mod), attr)
+    shape, dtype = tuple(sc['shape']), np.dtype('float64')
+    extra = ['q', 'm'] if sc['cls'] == 'particles' else []
+    real, model = {}, {}
+
+    def mk(vals):
+        return {c: vals[i].copy() for i, c in enumerate(comps)}
+
+    def compare(step, op):
+        for n in sorted(real):
+            x, m = real[n], model[n]
+            if type(x) is not cls:
+                V('result_type', op[0], f'after op {step} {op}: v{n} is a {type(x).__name__}, expected {cls.__name__}', op=op[0])
+                return False
+            for c in comps:
+                xa = np.asarray(getattr(x, c))
+                if type(getattr(x, c)).__name__ not in ('position', 'velocity', 'electric', 'magnetic'):
+                    V('result_type', op[0], f'after op {step} {op}: v{n}.{c} is a {type(getattr(x, c)).__name__}', op=op[0])
+                    return False
+                if xa.shape != m[c].shape or xa.tobytes() != m[c].tobytes():
+                    V('value_semantics', op[0], f'after op {step} {op}: v{n}.{c} holds {xa.tolist()!r}, the reference model {m[c].tolist()!r}', op=op[0])
+                    return False
+            for c in extra:
+                if np.asarray(getattr(x, c)).tobytes() != m[c].tobytes():
+                    V('value_semantics', op[0], f'after op {step} {op}: v{n}.{c} differs from the reference model', op=op[0])
+                    return False
+        return True
+
+    nops = 0
+    for step, op in enumerate(sc['ops']):
+        k = op[0]
+        if k == 'new':
+            vals = _values(op[2], (2, *shape), 'float64')
+            x = cls((shape, None, dtype), val=0.0)
+            for i, c in enumerate(comps):
+                getattr(x, c)[:] = vals[i]
+            m = mk(vals)
+            if extra:
+                qm = _values(op[2] + 1, (2, shape[-1]), 'float64')
+                x.q[:], x.m[:] = qm[0], qm[1]
+                m['q'], m['m'] = qm[0].copy(), qm[1].copy()
+            real[op[1]], model[op[1]] = x, m
+        elif k == 'copy':
+            real[op[1]], model[op[1]] = cls(real[op[2]]), {c: v.copy() for c, v in model[op[2]].items()}
+            res.probe('copy_construct')
+        elif k == 'alias':
+            real[op[1]], model[op[1]] = real[op[2]], model[op[2]]
+        elif k in ('bin', 'aug'):
+            dst, o, a, b = (op[1], op[2], op[3], op[4]) if k == 'bin' else (op[1], op[2], op[1], op[3])
+            if k == 'bin':
+                rr = real[a] + real[b] if o == 'add' else real[a] - real[b]
+            else:
+                x = real[a]
+                if o == 'add':
+                    x += real[b]
+                else:
+                    x -= real[b]
+                rr = x
+                res.probe('augmented_assignment')
+                if sum(1 for n in real if real[n] is real[a]) > 1:
+                    res.probe('augmented_assignment_on_aliased_name')
+            mr = {c: (model[a][c] + model[b][c] if o == 'add' else model[a][c] - model[b][c]) for c in comps}
+            for c in extra:
+                mr[c] = model[a][c]  # charge and mass are taken over from the left operand (shared, never written here)
+            real[dst], model[dst] = rr, mr
+        elif k == 'rmul':
+            real[op[1]] = op[2] * real[op[3]]
+            mr = {c: op[2] * model[op[3]][c] for c in comps}
+            for c in extra:
+                mr[c] = model[op[3]][c]
+            model[op[1]] = mr
+        elif k == 'compset':
+            a, c = op[1], comps[op[2]]
+            if op[3][0] == 's':
+                getattr(real[a], c)[:] = op[3][1]
+                model[a][c][:] = op[3][1]
+            else:
+                getattr(real[a], c)[:] = getattr(real[op[3][1]], c)
+                model[a][c][:] = model[op[3][1]][c]
+            res.probe('write_through_component_view')
+        elif k == 'abs':
+            if sc['cls'] != 'particles':
+                continue
+            got, want = abs(real[op[1]]), float(max(np.max(np.abs(model[op[1]][c])) for c in comps))
+            if not isinstance(got, float) or got != want:
+                V('abs_is_max_norm', 'abs', f'abs(v{op[1]}) = {got!r}, maximum norm of positions and velocities is {want!r}')
+                break
+            res.probe('abs')
+        else:
+            raise ValueError(k)
+        nops += 1
+        log.add('dc', step, k, [bdigest(np.concatenate([np.asarray(getattr(real[n], c)).reshape(-1) for c in comps])) for n in sorted(real)])
+        if not compare(step, op):
+            break
+    res.probe('container_history')
+    res['ticks'] = nops
+    res['nontrivial'] = nops > NV + 2
+    return res.finish(log)
+
+
 def generate(r):
+    if r.random() < 0.2:
+        return generate_container(r)
     cname = r.choice(['mesh', 'mesh', 'imex_mesh', 'imex_mesh', 'comp2_mesh', 'MeshDAE', 'position', 'acceleration'])
-    shape = r.choice([[3], [4], [2, 3], [1], [5]])
+    shape = r.choice([[3], [4], [2, 3], [1], [5], [2], [2, 2]])
     dtype = r.choice(['float64', 'float64', 'complex128'])
     ops = [['new', i, r.randrange(1 << 20)] for i in range(NV)]
     ncomp = len(CLASSES[cname][2] or [])
@@ -89,6 +229,8 @@ def _values(seed, shape, dtype):
 
 
 def execute(sc):
+    if sc.get('kind') == 'container_history':
+        return execute_container(sc)
     res, log = Result(), EventLog()
     V = lambda clause, site, detail, **ident: res.violate('C13', clause, site, detail, ident=dict(cls=sc['cls'], **ident))  # noqa: E731
     cls, comps = _cls(sc['cls'])
@@ -240,7 +382,7 @@ def shrink(sc):
         out.append({**sc, 'ops': ops[:i] + ops[i + 1:]})
     if len(ops) > NV + 4:
         out.insert(0, {**sc, 'ops': ops[: NV + (len(ops) - NV) // 2]})
-    if sc['shape'] != [1]:
+    if sc['shape'] != [1] and sc.get('kind') != 'container_history':
         out.append({**sc, 'shape': [1]})
     if sc['dtype'] != 'float64':
         out.append({**sc, 'dtype': 'float64'})
